@@ -68,6 +68,11 @@ def decCodec : NumCodec := ⟨fmtRat, parseDec⟩
 def goNum : NumCodec :=
   ⟨Newick.goCodec.fmt, fun s => if Newick.goCodec.isFloat s then Newick.goCodec.parse s else none⟩
 
+/-- a float codec of property C01 (`FormatFloat` / `ParseFloat` behind the `isFloat` test) as this
+    property's number codec; `goNum` is `numOf Newick.goCodec` -/
+def numOf (C : Newick.Codec) : NumCodec :=
+  ⟨C.fmt, fun s => if C.isFloat s then C.parse s else none⟩
+
 /- ## the Newick codec -/
 
 /-- the verified Newick model of property C01 (`Gotree.Newick.parse` / `write`) as a `NewickCodec` -/
